@@ -137,6 +137,11 @@ func LabelID(id int64) string {
 //
 //	http://www.llvm.org/docs/LangRef.html#identifiers
 func TypeName(name string) string {
+	// A type name consisting only of digits is stored with its quotes (e.g.
+	// `"42"`), to distinguish the type name %"42" from the type ID %42.
+	if len(name) > 2 && name[0] == '"' && name[len(name)-1] == '"' && isNumeric(name[1:len(name)-1]) {
+		return "%" + name
+	}
 	return "%" + EscapeIdent(name)
 }
 
